@@ -1,0 +1,49 @@
+//go:build verif
+
+package main
+
+// Verification driver (build tag verif only). `package main` cannot be imported, so the
+// correspondence harness runs this binary as a subprocess with ZOEKT_VERIF_DRIVER set to the
+// property id; init() then serves a line protocol over stdin/stdout against the package's own
+// Queue (c30), indexMutex (c31) and cleanup (c32), and exits before main() runs.
+
+import (
+	"bufio"
+	"fmt"
+	"os"
+	"strings"
+)
+
+func init() {
+	which := os.Getenv("ZOEKT_VERIF_DRIVER")
+	if which == "" {
+		return
+	}
+	var handle func(fields []string) string
+	switch which {
+	case "c30":
+		handle = newVerifC30()
+	case "c31":
+		handle = verifC31
+	case "c32":
+		handle = verifC32
+	default:
+		fmt.Fprintln(os.Stderr, "unknown ZOEKT_VERIF_DRIVER", which)
+		os.Exit(2)
+	}
+	in := bufio.NewReaderSize(os.Stdin, 1<<20)
+	out := bufio.NewWriterSize(os.Stdout, 1<<20)
+	for {
+		line, err := in.ReadString('\n')
+		line = strings.TrimRight(line, "\r\n")
+		if line != "" {
+			fmt.Fprintln(out, handle(strings.Fields(line)))
+			out.Flush()
+		}
+		if err != nil {
+			break
+		}
+	}
+	out.Flush()
+	os.Exit(0)
+}
